@@ -171,7 +171,7 @@ impl Monitor for C17 {
         vec![("loops", tier.pick(240_000, 4_800_000)), ("several", tier.pick(60_000, 1_200_000))]
     }
     fn rule(&self) -> &'static str {
-        "case i -> accumulation (i mod 5), input skips (i/5 mod 2), iterations k = 1 + (i/10 mod 4), representation (i/40 mod 4: dense range / spatial range of 'same' convolutions, deconvolutions, 1x1 pools and deconvolution+max-pool pairs / the same followed by a dense layer so that the loop output is flattened / mixed chain on r*r elements where spatial layers follow dense layers, so that a looped range may begin with a spatial layer that is fed a flat tensor), the network's skip accumulation (i/7 mod 5, set although it only concerns skip connections), the gradient-scaling closure handed to loopback (i/3 mod 4: 1/x, constant 1, 1/sqrt(x), x - it concerns the backward pass and must not show in the value), position of the range (start / middle / end) and its length 1..3 random, every sixth network additionally has an additive skip connection outside the looped range or into its first layer, every fifth has layers outside the range wrapped into feedback blocks; predict is compared with the reference (o_0 = first output of layer b, o_t = f_{a..b}(o_{t-1} [+ input of a]), passed on = combine(o_0; o_1..o_k)) within the running f32 bound; for overwrite without input skips additionally bit-exact against a plain library network in which layers a..b are physically repeated k+1 times with the same weights. several: chains of 4..8 layers with two or three loop connections over pairwise disjoint ranges (every third case: ranges in any arrangement - nested, overlapping, sharing a start - without input skips) (own iteration counts and input-skip flags, one shared accumulation), same oracle; for overwrite without input skips the network with every range physically repeated. Distinct = distinct configuration descriptors."
+        "case i -> accumulation (i mod 5), input skips (i/5 mod 2), iterations k = 1 + (i/10 mod 4), representation (i/40 mod 4: dense range / spatial range of 'same' convolutions, deconvolutions, 1x1 pools and deconvolution+max-pool pairs / the same followed by a dense layer so that the loop output is flattened / mixed chain on r*r elements where spatial layers follow dense layers, so that a looped range may begin with a spatial layer that is fed a flat tensor), the network's skip accumulation (i/7 mod 5, set although it only concerns skip connections), the gradient-scaling closure handed to loopback (i/3 mod 4: 1/x, constant 1, 1/sqrt(x), x - it concerns the backward pass and must not show in the value), position of the range (start / middle / end) and its length 1..3 random, every sixth network additionally has an additive skip connection outside the looped range or into its first layer, every fifth has layers outside the range wrapped into feedback blocks; predict is compared with the reference (o_0 = first output of layer b, o_t = f_{a..b}(o_{t-1} [+ input of a]), passed on = combine(o_0; o_1..o_k)) within the running f32 bound; for overwrite without input skips additionally bit-exact against a plain library network in which layers a..b are physically repeated k+1 times with the same weights, and (every second such case) the same equivalence in training mode: with dropout 0.5 on the looped layers the training loss of one learn() step on one sample - the objective of the training-mode forward pass - must be bit-equal for the looped and the unrolled network. several: chains of 4..8 layers with two or three loop connections over pairwise disjoint ranges (every third case: ranges in any arrangement - nested, overlapping, sharing a start - without input skips) (own iteration counts and input-skip flags, one shared accumulation), same oracle; for overwrite without input skips the network with every range physically repeated. Distinct = distinct configuration descriptors."
     }
     fn assumptions(&self) -> Vec<&'static str> {
         vec!["reference loop semantics written from the property statement (refmodel::RNet::forward)", "skip connections in the generated networks end outside the looped range or at its first layer (whose accumulated input is then what the loop's input skip adds)"]
